@@ -100,7 +100,11 @@ def run(case, ctx):
         return blocks
 
     x0 = assemble(win)
-    x = geom.MultiImage({t: jnp.asarray(v) for t, v in x0.items()}, D, torus)
+    # one case in five: NumPy-backed input; one in five (id family): the stored history is int32 (raw integer data) while the
+    # model answers with non-integer float32 values - what is fed back must be the prediction itself, not a cast of it
+    narrow = case["i"] % 5 == 3 and case["family"] == "ids"
+    off = np.float32(0.5 if narrow else 0.0)
+    x = geom.MultiImage({t: (jnp.asarray(v.astype(np.int32)) if narrow else (np.asarray(v) if case["i"] % 5 == 2 else jnp.asarray(v))) for t, v in x0.items()}, D, torus)
     key = {"D": D, "sp": sp, "n": n_steps, "past": past, "sig": sig, "family": case["family"]}
     viols = []
     seen_inputs = []
@@ -120,7 +124,7 @@ def run(case, ctx):
             if cd == 0:
                 continue
             if case["family"] == "ids":
-                out[t] = jnp.asarray(np.stack([frame(D, sp, t[0], 20000 + (TCODE[t] * 4 + c) * 50 + step) for c in range(cd)]))
+                out[t] = jnp.asarray(np.stack([frame(D, sp, t[0], 20000 + (TCODE[t] * 4 + c) * 50 + step) + off for c in range(cd)]))
             else:
                 out[t] = jnp.einsum("oc,c...->o...", jnp.asarray(W[t]), xin[t])
         return geom.MultiImage(out, D, torus), aux
@@ -154,7 +158,8 @@ def run(case, ctx):
             break
         bad = False
         for t in order:
-            if blocks[t].shape != exp_in[t].shape or err_exact(blocks[t], exp_in[t]) > 1e-5:
+            # unique-id payloads are compared exactly (a relative tolerance would hide a change of 0.5 in an id of 6e6)
+            if blocks[t].shape != exp_in[t].shape or (not np.array_equal(blocks[t], exp_in[t]) if case["family"] == "ids" else err_exact(blocks[t], exp_in[t]) > 1e-5):
                 slot = ""
                 if blocks[t].shape == exp_in[t].shape:
                     ch = int(np.argwhere(np.abs(blocks[t] - exp_in[t]).reshape(len(exp_in[t]), -1).max(1) > 0)[0][0])
@@ -168,7 +173,7 @@ def run(case, ctx):
             viols.append(viol("rollout-metadata", f"step {step}: D/is_torus changed"))
         # prediction of this step
         if case["family"] == "ids":
-            pred = {t: [frame(D, sp, t[0], 20000 + (TCODE[t] * 4 + c) * 50 + step) for c in range(cd)] for t, cd, _ in sig if cd > 0}
+            pred = {t: [frame(D, sp, t[0], 20000 + (TCODE[t] * 4 + c) * 50 + step) + off for c in range(cd)] for t, cd, _ in sig if cd > 0}
         else:
             pred = {t: list(np.einsum("oc,c...->o...", W[t].astype(np.float64), exp_in[t].astype(np.float64)).astype(np.float32)) for t, cd, _ in sig if cd > 0}
         preds.append(pred)
@@ -187,7 +192,7 @@ def run(case, ctx):
                 want = np.stack([preds[s][t][c] for c in range(cd) for s in range(n_steps)])
                 g = np.asarray(got[t])
                 tol = 1e-5 if case["family"] == "ids" else 1e-4
-                if g.shape != want.shape or err_exact(g, want) > tol:
+                if g.shape != want.shape or (not np.array_equal(g, want) if case["family"] == "ids" else err_exact(g, want) > tol):
                     viols.append(viol("rollout-output-order", f"returned block {t} is not the n one-step predictions in time order per channel (shape {g.shape} vs {want.shape}); {key}", got=small(g), want=small(want)))
                     break
     # the same rollout traced under jit (linear family: a pure jax model); must agree with the eager rollout by type
@@ -207,7 +212,7 @@ def run(case, ctx):
             viols.append(viol(f"rollout-exception-{type(e).__name__}", f"jit rollout raised {type(e).__name__}: {str(e)[:200]}; {key}"))
     nontrivial = (n_steps >= 2 and past >= 2) or bool(const_dict)
     return result(key, viols, nontrivial, evals=len(seen_inputs) + 1, obs={"model_inputs_checked": len(seen_inputs), "autoregressive_step_calls": _step_calls[0] - steps_before},
-                  hist={"D": D, "family": case["family"], "n": n_steps, "past": past, "const_types": len(const_dict), "const_only_types": sum(1 for _, cd, cc in sig if cd == 0 and cc > 0), "ntypes": len(sig)}, sample={"key": key})
+                  hist={"D": D, "family": case["family"], "history_dtype": "int32" if narrow else "float32", "n": n_steps, "past": past, "const_types": len(const_dict), "const_only_types": sum(1 for _, cd, cc in sig if cd == 0 and cc > 0), "ntypes": len(sig)}, sample={"key": key})
 
 
 def finalize(tier, results, obs, hist, metas):
